@@ -129,6 +129,29 @@ Theorem C12_holds_fresh_sound :
 Proof. exact @holds_fresh_sound. Qed.
 Print Assumptions C12_holds_fresh_sound.
 
+(* second clause of [holds] (session 5): a read-only by-ID query answered on contents [t] is the
+   answer a search of the IDs of [t] gives; for PhenoSimulator.run: the columns bearing the
+   requested IDs, in the order requested (beta k stays with the column named k) *)
+Theorem C12_holds_view_sound :
+  forall (T : Type) (rare : T -> Z -> Z -> bool) file anc legacy steps,
+  holds_view_gen rare file anc legacy steps = true ->
+  forall p t v fr t' v',
+    In (XOn p, GO t (OView v), fr) steps ->
+    a_step gtab gview g_ids1 g_ids2 g_sub1 g_sub2 t (g_interp T rare file anc legacy p) = Ok (t', OView v') ->
+    v = v'.
+Proof. exact @holds_view_sound. Qed.
+Print Assumptions C12_holds_view_sound.
+
+Theorem C12_holds_view_sim :
+  forall (T : Type) (rare : T -> Z -> Z -> bool) file anc legacy steps,
+  holds_view_gen rare file anc legacy steps = true ->
+  forall ids t v fr,
+    In (XOn (GSim ids), GO t (OView v), fr) steps ->
+    nodupZ (g_ids2 t) = true ->
+    forall t2, g_sub2 (g_ids2 t) ids t = Ok t2 -> v = sim_view t2.
+Proof. exact @holds_view_sim. Qed.
+Print Assumptions C12_holds_view_sim.
+
 Theorem C12_gobs_eqb_sound : forall a b, gobs_eqb a b = true -> a = b.
 Proof. exact gobs_eqb_true. Qed.
 Print Assumptions C12_gobs_eqb_sound.
